@@ -83,6 +83,11 @@ func (r *Root) Setter(target Gindex, expand bool) (Link, error) {
 		return Identity, nil
 	}
 	if expand {
+		// Only the summary of a zero subtree can be expanded:
+		// any other leaf stands for data that is not available here.
+		if zero, ok := ZeroNode(target.Depth()).(*Root); !ok || *r != *zero {
+			return nil, NavigationError
+		}
 		child := ZeroNode(target.Depth() - 1)
 		p := NewPairNode(child, child)
 		return p.Setter(target, expand)
